@@ -15,13 +15,15 @@ class OriginalLocation:
                  path_maker_type,  # type: PathMakerType
                  volume_top_dir,
                  ):  # type: (...) -> str
-        normalized_path = os.path.normpath(path)
-        basename = os.path.basename(normalized_path)
-        parent = self.fs.parent_realpath2(normalized_path)
+        # only trailing slashes are stripped before the parent is resolved:
+        # 'link/../x' is not 'x' when link is a symlink
+        stripped_path = path.rstrip(os.path.sep) or path
+        basename = os.path.basename(stripped_path)
+        parent = os.path.normpath(self.fs.parent_realpath2(stripped_path))
         parent = self._calc_parent_path(parent, volume_top_dir,
                                         path_maker_type)
 
-        return os.path.join(parent, basename)
+        return os.path.normpath(os.path.join(parent, basename))
 
     @staticmethod
     def _calc_parent_path(parent,  # type: str
